@@ -1,8 +1,186 @@
 import Drive.Util
-/-! Trace validator for the `alloc` stream(s).  (stub: to be filled in) -/
-namespace Drive.Alloc
+import RV.Model.Alloc
+/-!
+Trace validator for the `alloc` stream (C12).
 
-def run (_h : IO.FS.Stream) : IO Verdict :=
-  return { ok := false, lines := 0, checks := 0, msg := "component alloc not implemented" }
+The harness runs the real `z.Allocator` under a cooperative scheduler: exactly one
+goroutine runs at a time, from one `verif` yield point of `Allocate` to the next.
+Each release is one record and must be exactly one step of `RV.Alloc.step`:
+
+* `new sz n c0`                 NewAllocator(sz) used by n goroutines; first chunk has c0 bytes
+* `start t kind arg`            goroutine t enters alloc/aligned (arg = size) or copy (arg = hex bytes)
+* `retnil t`                    … and returned nil at once (size 0)
+* `add t pos`                   atomic add; `pos` is the word it obtained
+* `check t grow`                bounds check failed, goroutine waits for the mutex
+* `check t done ic io il rc ro rl base8`
+                                slice cut: inner region (ic,io,il), returned slice (rc,ro,rl) from real
+                                addresses, base8 = chunk base address mod 8
+* `grow t grew word`            critical section done; grew = 1 if this goroutine stored the new word
+* `panic t kind`                toobig (at start) | bounds (at check) | slots (in the critical section)
+* `reset`, `trim max`, `chunks l0 l1 …` (snapshot, trailing empty slots dropped), `end`
+* `chunk0 sz len`, `log2 x y`   NewAllocator sizing / log2 on their own
+-/
+namespace Drive.Alloc
+open RV.Alloc
+
+structure St where
+  s : Option State := none
+  lastOp : List (Nat × Op) := []
+
+def trimZeros (l : List Nat) : List Nat :=
+  (l.reverse.dropWhile (· == 0)).reverse
+
+def pcOf (s : State) (t : Nat) : Option Pc := (s.threads[t]?).map (·.pc)
+
+def bytesOfHex (h : String) : Option (List (BitVec 8)) := (parseHex h).map (·.toList)
+
+def showPc (p : Option Pc) : String := repr p |>.pretty
+
+def doStep (st : St) (a : Action) (what : String) : Except String State :=
+  match st.s with
+  | none => .error s!"{what} before new"
+  | some s =>
+    match step s a with
+    | none => .error s!"{what}: the model has no such step enabled"
+    | some s' => .ok s'
+
+def step (st : St) (_n : Nat) (ws : List String) : Except String (St × Nat) :=
+  match ws with
+  | ["new", sz, n, c0] =>
+    match i64? sz, nat? n, nat? c0 with
+    | some sz, some n, some c0 =>
+      let m := chunk0Len sz
+      if m == c0 then .ok ({ s := some (newAllocator sz n), lastOp := [] }, 1)
+      else .error s!"NewAllocator({sz.toInt}): first chunk {c0} bytes, model {m}"
+    | _, _, _ => .error "bad new"
+  | ["start", t, kind, arg] =>
+    match nat? t with
+    | none => .error "bad start"
+    | some t =>
+      let op? : Option Op :=
+        match kind with
+        | "alloc" => (i64? arg).map Op.alloc
+        | "aligned" => (i64? arg).map Op.aligned
+        | "copy" => (bytesOfHex arg).map Op.copy
+        | _ => none
+      match op? with
+      | none => .error "bad start operand"
+      | some op => do
+        let s' ← doStep st (.start t op) "start"
+        .ok ({ s := some s', lastOp := (t, op) :: st.lastOp.filter (·.1 != t) }, 0)
+  | ["retnil", t] =>
+    match nat? t, st.s with
+    | some t, some s =>
+      match st.lastOp.lookup t with
+      | some op =>
+        if Gen.Alloc.allocZero op.inner && !Gen.Alloc.allocTooBig op.inner && pcOf s t == some .idle
+        then .ok (st, 1)
+        else .error s!"goroutine {t} returned nil at once; model: inner size {op.inner.toNat}, pc {showPc (pcOf s t)}"
+      | none => .error "retnil without start"
+    | _, _ => .error "bad retnil"
+  | ["add", t, pos] =>
+    match nat? t, u64? pos with
+    | some t, some pos => do
+      let s' ← doStep st (.add t) "add"
+      if s'.compIdx == pos then
+        match pcOf s' t with
+        | some (.added _ p) => if p == pos then .ok ({ st with s := some s' }, 1) else .error "add: model thread holds another position"
+        | p => .error s!"add: model pc {showPc p}"
+      else .error s!"atomic add of goroutine {t}: implementation word {pos.toNat}, model {s'.compIdx.toNat}"
+    | _, _ => .error "bad add"
+  | ["check", t, "grow"] =>
+    match nat? t with
+    | some t => do
+      let s' ← doStep st (.check t) "check"
+      match pcOf s' t with
+      | some (.needGrow _ _) => .ok ({ st with s := some s' }, 1)
+      | p => .error s!"goroutine {t} found its position beyond the chunk; model: {showPc p}"
+    | none => .error "bad check"
+  | ["check", t, "done", ic, io, il, rc, ro, rl, base] =>
+    match nat? t, nat? ic, int? io, nat? il, int? rc, nat? ro, nat? rl, u64? base with
+    | some t, some ic, some io, some il, some rc, some ro, some rl, some base => do
+      let s' ← doStep st (.check t) "check"
+      match pcOf s' t, s'.grants with
+      | some .idle, g :: _ =>
+        let inner : Region := ⟨ic, io.toNat, il⟩
+        if g.tid != t then .error "check: grant recorded for another goroutine"
+        else if io < 0 || g.reg != inner then
+          .error s!"goroutine {t} got chunk {ic} [{io},+{il}); model chunk {g.reg.chunk} [{g.reg.off},+{g.reg.len})"
+        else
+          let res := resultOf (fun _ => base) g
+          if rc < 0 || res != (⟨rc.toNat, ro, rl⟩ : Region) then
+            .error s!"goroutine {t} received chunk {rc} [{ro},+{rl}); model chunk {res.chunk} [{res.off},+{res.len})"
+          else .ok ({ st with s := some s' }, 2)
+      | p, _ => .error s!"goroutine {t} was handed a slice; model: {showPc p}"
+    | _, _, _, _, _, _, _, _ => .error "bad check done"
+  | ["grow", t, grew, word] =>
+    match nat? t, nat? grew, u64? word, st.s with
+    | some t, some grew, some word, some s => do
+      let s' ← doStep st (.grow t) "grow"
+      match pcOf s' t with
+      | some (.toAdd _) =>
+        -- "grew" = this goroutine ran addBufferAt and stored the new word (the table itself
+        -- stays as it is when a large enough chunk already exists)
+        let mstored := if s'.compIdx != s.compIdx then 1 else 0
+        if mstored != grew then .error s!"critical section of goroutine {t}: implementation grew={grew}, model {mstored}"
+        else if s'.compIdx != word then .error s!"word after the critical section: implementation {word.toNat}, model {s'.compIdx.toNat}"
+        else .ok ({ st with s := some s' }, 2)
+      | p => .error s!"critical section of goroutine {t} finished; model: {showPc p}"
+    | _, _, _, _ => .error "bad grow"
+  | ["panic", t, kind] =>
+    match nat? t, st.s with
+    | some t, some s =>
+      match kind with
+      | "toobig" =>
+        match st.lastOp.lookup t with
+        | some op =>
+          if Gen.Alloc.allocTooBig op.inner && pcOf s t == some .idle then .ok (st, 1)
+          else .error s!"goroutine {t} panicked (too big); model: inner size {op.inner.toNat}, pc {showPc (pcOf s t)}"
+        | none => .error "panic without start"
+      | "bounds" => do
+        let s' ← doStep st (.check t) "check"
+        if pcOf s' t == some (.panicked .bounds) then .ok ({ st with s := some s' }, 1)
+        else .error s!"goroutine {t} panicked (bounds); model: {showPc (pcOf s' t)}"
+      | "slots" => do
+        let s' ← doStep st (.grow t) "grow"
+        if pcOf s' t == some (.panicked .outOfSlots) then .ok ({ st with s := some s' }, 1)
+        else .error s!"goroutine {t} panicked (out of slots); model: {showPc (pcOf s' t)}"
+      | _ => .error s!"goroutine {t} panicked in a way the model does not know ({kind})"
+    | _, _ => .error "bad panic"
+  | ["reset"] => do
+    let s' ← doStep st .reset "reset"
+    .ok ({ st with s := some s' }, 0)
+  | ["trim", mx] =>
+    match i64? mx with
+    | some mx => do
+      let s' ← doStep st (.trim mx) "trim"
+      .ok ({ st with s := some s' }, 0)
+    | none => .error "bad trim"
+  | "chunks" :: ls =>
+    match st.s with
+    | none => .error "chunks before new"
+    | some s =>
+      let ls := if ls == ["-"] then [] else ls
+      match ls.mapM nat? with
+      | none => .error "bad chunks"
+      | some obs =>
+        let m := trimZeros s.chunks
+        if m == obs then .ok (st, 1) else .error s!"chunk table: implementation {obs}, model {m}"
+  | ["end"] => .ok ({}, 0)
+  | ["chunk0", x, l] =>
+    match i64? x, nat? l with
+    | some x, some l =>
+      let m := chunk0Len x
+      if m == l then .ok (st, 1) else .error s!"NewAllocator({x.toInt}): first chunk {l}, model {m}"
+    | _, _ => .error "bad chunk0"
+  | ["log2", x, y] =>
+    match i64? x, i64? y with
+    | some x, some y =>
+      let m := log2 x
+      if m == y then .ok (st, 1) else .error s!"log2({x.toInt}): implementation {y.toInt}, model {m.toInt}"
+    | _, _ => .error "bad log2"
+  | _ => .error s!"unknown record {ws.take 3}"
+
+def run (h : IO.FS.Stream) : IO Verdict := runLines h ({} : St) step
 
 end Drive.Alloc
